@@ -72,6 +72,10 @@ def handle : List String → String
       let fk := if d && !f && !env then "C01/int-family-int64" else "-"
       s!"dom={encBool d}\tfits={encBool f}\tenv={encBool env}\tfinding={fk}"
     | _, _ => "bad-op"
+  | ["decstr", digits, e] =>
+    match digits.toNat?, e.toInt? with
+    | some d, some e => s!"sci={encBool (pyDecimalStrSci d e)}\taccepted={encBool (pyformatDecimalAccepted d e)}"
+    | _, _ => "bad-op"
   | ["copy", op, k, src, tgt] =>
     match k.toInt? with
     | none => "bad-op"
